@@ -39,6 +39,11 @@ def plan(tier, seed):
     cases += [{'family': 'wide', 'cseed': rnd.randrange(1 << 30)} for _ in range(48 if tier == 'quick' else 600)]
     # one mid-level circuit object under two keys, update_var below one of them, outputs below both
     cases += [{'family': 'shared_update', 'cseed': rnd.randrange(1 << 30)} for _ in range(24 if tier == 'quick' else 400)]
+    cases += [{'family': 'shared_operator', 'cseed': rnd.randrange(1 << 30)} for _ in range(16 if tier == 'quick' else 300)]
+    # the same paths as INPUT addresses: wildcard paths with one column per addressed node (column i drives the i-th node that the
+    # path denotes, whatever the declaration order and the vectorization groups are); machinery shared with C08
+    cases += [{'family': 'input_paths', 'cseed': rnd.randrange(1 << 30), 'mode': 'euler', 'force': 'wildcard_multi',
+               'spec_kind': 'shared_ops' if i % 3 else None} for i in range(24 if tier == 'quick' else 400)]
     # edges through EdgeTemplates (one- and two-input edge operators, the second input addressed by an explicit variable path)
     cases += [{'family': 'edge_templates', 'cseed': rnd.randrange(1 << 30)} for _ in range(40 if tier == 'quick' else 900)]
     return cases
@@ -109,7 +114,16 @@ def make_case(case, ctx):
             c4.update(pool='derived', hostile_labels=rnd.random() < 0.6)
             if rnd.random() < 0.6:
                 c4['require'] = 'user_name_like_generated'
-        spec, feats, risk = c04.make_spec(c4, ctx['excluded'])
+        if case.get('family') == 'shared_operator':
+            # node types that share one operator template: 'all/cop/x' spans several vectorization groups in interleaved order
+            spec = gen.gen_shared_op_net(rnd)
+            feats, risk = gen.features(spec)
+            feats = sorted(set(feats) | {'node_types_share_operator'})
+            risk = sorted((set(risk) - {'vec_partial_input_default'}) | c04.vec_risks(spec))
+            if set(risk) & ctx['excluded']:
+                continue
+        else:
+            spec, feats, risk = c04.make_spec(c4, ctx['excluded'])
         ref = RefModel(spec)
         vec = rnd.random() < 0.5 if not want else True
         if case.get('family') == 'wide':
@@ -182,6 +196,14 @@ def norm_label(c, outputs):
 
 
 def run_case(case, ctx):
+    if case.get('family') == 'input_paths':
+        from vp.props import c08
+        if 'c08ctx' not in ctx:
+            import mpmath
+            ctx['c08ctx'] = dict(ctx, mp=mpmath, excluded=set(ctx['excluded']) | (open_risks('C08') - {'multi_column_input_not_vectorized'}))
+        res = c08.run_case(case, ctx['c08ctx'])
+        res.setdefault('mech', {})['input_path_cases'] = 1
+        return res
     spec, feats, risk, ref, vec, form, requests, depth = make_case(case, ctx)
     mech = {}
     res = {'features': feats + [form, 'vec' if vec else 'novec'], 'risk': risk,
